@@ -238,6 +238,37 @@ func (c *Catalogue) VerMax(t QName, k string) (uint64, *Exception) {
 	return mx, nil
 }
 
+// VerAll implements `SELECT k, max(ver) as ver FROM t GROUP BY k`: one (k, max ver) pair per recorded key.
+func (c *Catalogue) VerAll(t QName) ([][2]uint64, *Exception) {
+	q, e := c.resolveData(t)
+	if e != nil {
+		return nil, e
+	}
+	mx := map[uint64]uint64{}
+	for _, r := range c.Data[q.String()] {
+		kv, _ := r.Get("k")
+		vv, _ := r.Get("ver")
+		k, err1 := strconv.ParseUint(kv.Text, 10, 64)
+		n, err2 := strconv.ParseUint(vv.Text, 10, 64)
+		if err1 != nil || err2 != nil {
+			return nil, exc(-1, "UNMODELLED", "non-numeric k/ver value %q/%q", kv.Text, vv.Text)
+		}
+		if n > mx[k] || mx[k] == 0 {
+			mx[k] = max(mx[k], n)
+		}
+	}
+	ks := make([]uint64, 0, len(mx))
+	for k := range mx {
+		ks = append(ks, k)
+	}
+	sort.Slice(ks, func(a, b int) bool { return ks[a] < ks[b] })
+	out := make([][2]uint64, 0, len(ks))
+	for _, k := range ks {
+		out = append(out, [2]uint64{k, mx[k]})
+	}
+	return out, nil
+}
+
 // Setting implements `SELECT argMax(value, inserted_at) … WHERE fingerprint = fp GROUP BY
 // fingerprint HAVING argMax(name, inserted_at) != ”`: the latest row under the logical clock.
 func (c *Catalogue) Setting(t QName, fp string) (value string, found bool, e *Exception) {
